@@ -237,6 +237,9 @@ def closure_fn(ex, clo):
     if len(f) != 1: raise Unknown('closure ' + clo.ty + ' -> %d' % len(f))
     return f[0]
 def call_closure(ex, clo, args):
+    if not isinstance(clo, ClosureVal):       # a function item used as a callable (e.g. `.map(System::stop)`, an enum constructor)
+        import srvmodels
+        return srvmodels._callable(ex, clo, args)
     f = closure_fn(ex, clo)
     first = f.types.get(1, '')
     env = Ref(LCell(Cell(clo))) if first.startswith('&') else clo
@@ -382,8 +385,9 @@ class RxObj:
         for it in self.ch.q: ex.drop(it)
         self.ch.q = []
 class OneshotTx:
-    def __init__(self): self.sent = None
-    def model_drop(self, ex): pass
+    def __init__(self): self.sent = None; self.dropped = False; self.rx_dropped = False
+    def model_drop(self, ex):
+        if self.sent is None: self.dropped = True
 class SleepObj:
     canon_fields = ('deadline', 'polled')
     def __init__(self, deadline): self.deadline = deadline; self.polled = False     # polled since it was last (re-)armed?
